@@ -1162,8 +1162,10 @@ def run(ctx):
         'source), int32 overflow of ID/L1/DVID and duplicate dropped column names are outside the model (not generated)',
         'numeric IGNORE/ACCEPT comparisons: the model rounds both sides to binary64 (round_double, nearest-even) as DataFrame.query '
         'does; overflow to inf and subnormals are outside; int32 columns (ID, L1, DVID) are modelled for |value| < 2**31',
-        'TIME/DATE translation: the float arithmetic of the code (h + m/60, truncating split into h/min/s/us/ns, total_seconds()/3600) '
-        'is not modelled, the tie uses a tolerance of 1e-9 h; with nanosecond remainders pandas needs years 1678-2261',
+        'TIME/DATE translation: the float arithmetic of the code (h + m/60, one rounding to whole nanoseconds, total_seconds()/3600) '
+        'is modelled in binary64 (every operation = round_double of the exact result) and tied by exact equality of the doubles; '
+        'the calendar theorems read the result as an exact rational (tolerance 1e-9 h in that reading only); overflow, subnormals '
+        'and years outside 1678-2261 (pandas Timestamp range) are outside the model',
         'a dropped TIME column and DATE columns inside the reader model (read_model) are not covered; translate_nmtran_time is '
         'modelled separately (Time.v)',
         'float printing of DataFrame.to_csv (repr of a double) is an engine: the write/read cycle is an oracle, its theorem '
